@@ -118,3 +118,122 @@ Theorem C18_simp_err_justified : forall c roots l, Closed c roots -> simplify c 
    exists g gt, Reach c roots g /\ nth_error (gates c) g = Some gt /\ In l (gins gt)).
 Proof. exact simp_err_justified. Qed.
 Print Assumptions C18_simp_err_justified.
+
+(** ** AIGER reader (C18p): model of aiger::parse for both formats (IO/AigerParse.v),
+       proved in IO/Aiger{Lex,Sec,Sym,,Total,Sound}Proofs.v *)
+From Coq Require Import NArith Relations.
+From OxiVerif Require Import IO.Aiger IO.AigerParse IO.AigerLexProofs IO.AigerSecProofs IO.AigerSymProofs
+     IO.AigerProofs IO.AigerTotalProofs IO.AigerSoundProofs IO.AigerExamples.
+Import ListNotations.
+
+(** (a) totality: for ALL byte strings the reader returns a problem or a diagnostic;
+    the fuel of its count-driven loops (input length + 1) is never exhausted *)
+Theorem C18_aiger_parse_total : forall (check_acyclic : bool) (bs : list N),
+  parse_aiger check_acyclic bs <> PFuel.
+Proof. exact parse_aiger_total. Qed.
+Print Assumptions C18_aiger_parse_total.
+
+(** ... and more fuel does not change a loop's result: every iteration consumes input *)
+Theorem C18_aiger_loop_fuel_irrelevant : forall (A : Type) (p : N -> list N -> pres (A * list N)),
+  (forall i bs, match p i bs with
+                | POk (_, r) => (length r < length bs)%nat
+                | PErr => True
+                | PFuel => False
+                end) ->
+  forall f1 f2 n i bs, (length bs < f1)%nat -> (length bs < f2)%nat ->
+  collect_i f1 n i p bs = collect_i f2 n i p bs.
+Proof. exact @collect_i_fuel_irrelevant. Qed.
+Print Assumptions C18_aiger_loop_fuel_irrelevant.
+
+(** the 7-bit delta codec of the binary format, any size below 2^64, with the 64-bit
+    [wrapping_shl] of [usize_7bit] *)
+Theorem C18_aiger_varint_roundtrip : forall x rest, (x < two64)%N ->
+  usize_7bit (encode7 x ++ rest) = POk (x, rest).
+Proof. exact usize_7bit_encode7. Qed.
+Print Assumptions C18_aiger_varint_roundtrip.
+
+(** one binary AND gate: the two deltas written for [rhs1 <= rhs0 < lhs] are read back *)
+Theorem C18_aiger_bin_and_roundtrip : forall i a b rest, (i * 2 < two64)%N -> (a < i * 2)%N -> (b <= a)%N ->
+  bin_and i (encode_gate (i * 2) a b ++ rest) = POk ((a, b), rest).
+Proof. exact bin_and_print. Qed.
+Print Assumptions C18_aiger_bin_and_roundtrip.
+
+(** the symbol table: the name vectors are read back from their symbol lines *)
+Theorem C18_aiger_symbol_table_roundtrip : forall h (s : asyms),
+  (h_in h + h_lat h <= max_capacity)%N -> (h_out h <= max_capacity)%N -> (h_bad h <= max_capacity)%N ->
+  (h_inv h <= max_capacity)%N -> (h_just h <= max_capacity)%N -> (h_fair h <= max_capacity)%N ->
+  names_ok_b (h_in h + h_lat h) (sy_in s) = true -> names_ok_b (h_out h) (sy_out s) = true ->
+  names_ok_b (h_bad h) (sy_bad s) = true -> names_ok_b (h_inv h) (sy_inv s) = true ->
+  names_ok_b (h_just h) (sy_just s) = true -> names_ok_b (h_fair h) (sy_fair s) = true ->
+  let ni := N.to_nat (h_in h) in
+  symbol_table h
+    (print_names 105 0 (firstn ni (sy_in s)) ++ print_names 108 0 (skipn ni (sy_in s))
+     ++ print_names 111 0 (sy_out s) ++ print_names 98 0 (sy_bad s) ++ print_names 99 0 (sy_inv s)
+     ++ print_names 106 0 (sy_just s) ++ print_names 102 0 (sy_fair s))
+  = POk (s, []).
+Proof. exact symbol_table_print. Qed.
+Print Assumptions C18_aiger_symbol_table_roundtrip.
+
+(** (b) round trips: a well-formed problem (the decidable [wf_b]: variables numbered
+    inputs, latches, AND gates in order with [rhs1 <= rhs0 < lhs], literals in
+    range, counts within MAX_CAPACITY, default variable map, reproducible names) is
+    read back from its ASCII and from its binary file, whatever [check_acyclic] is *)
+Theorem C18_aiger_aag_roundtrip : forall (check_acyclic : bool) p, wf_b p = true ->
+  parse_aiger check_acyclic (print_aag p) = POk p.
+Proof. intros ca p H. apply parse_print_aag. apply wf_b_wf. exact H. Qed.
+Print Assumptions C18_aiger_aag_roundtrip.
+
+Theorem C18_aiger_aig_roundtrip : forall (check_acyclic : bool) p, wf_b p = true ->
+  parse_aiger check_acyclic (print_aig p) = POk p.
+Proof. intros ca p H. apply parse_print_aig. apply wf_b_wf. exact H. Qed.
+Print Assumptions C18_aiger_aig_roundtrip.
+
+(** (c) EQUIVALENCE: the ASCII and the binary file of the same well-formed problem
+    parse to the same problem *)
+Theorem C18_aiger_aag_aig_equiv : forall (ca ca' : bool) p, wf_b p = true ->
+  parse_aiger ca (print_aag p) = parse_aiger ca' (print_aig p).
+Proof. intros ca ca' p H. apply aag_aig_equiv. apply wf_b_wf. exact H. Qed.
+Print Assumptions C18_aiger_aag_aig_equiv.
+
+(** (c, strong direction) every accepted binary file: writing the parsed problem in
+    ASCII form and reading that file yields the same problem -- provided the symbol
+    names are ones a symbol line can reproduce ([syms_ok]; necessary, see
+    [C18_aiger_syms_ok_needed]) *)
+Theorem C18_aiger_aig_then_aag : forall (ca ca' : bool) bs p,
+  is_binary bs -> parse_aiger ca bs = POk p -> syms_ok p ->
+  parse_aiger ca' (print_aag p) = POk p /\ parse_aiger ca' (print_aig p) = POk p.
+Proof.
+  intros ca ca' bs p Hb H Hs. pose proof (parse_aig_wf ca bs p Hb H Hs) as W.
+  split; [apply parse_print_aag|apply parse_print_aig]; exact W.
+Qed.
+Print Assumptions C18_aiger_aig_then_aag.
+
+(** (d) the AND gates of every accepted binary file are topologically ordered: gate [k]
+    reads gates with smaller numbers only, the acyclicity test of the ASCII branch
+    would pass, and no gate depends on itself through any chain of gate inputs *)
+Theorem C18_aiger_bin_topo : forall (ca : bool) bs p, is_binary bs -> parse_aiger ca bs = POk p ->
+  (forall k g, nth_error (ap_ands p) k = Some g ->
+     (forall s j, fst g = ALGate s j -> (N.to_nat j < k)%nat) /\
+     (forall s j, snd g = ALGate s j -> (N.to_nat j < k)%nat)) /\
+  acyclic_b (ap_ands p) = true /\
+  forall g, ~ clos_trans nat (reads (ap_ands p)) g g.
+Proof. exact parse_aig_topo. Qed.
+Print Assumptions C18_aiger_bin_topo.
+
+(** the hypotheses are satisfiable by a non-trivial problem (latches with reset 1 /
+    uninitialised, three gates, justice, names) *)
+Theorem C18_aiger_wf_example :
+  wf_b ex_problem = true /\
+  is_binary (print_aig ex_problem) /\ parse_aiger true (print_aig ex_problem) = POk ex_problem /\
+  syms_ok ex_problem /\ ap_ands ex_problem <> [] /\ ap_latches ex_problem <> [].
+Proof. split; [exact ex_wf|exact ex_strong_hyps]. Qed.
+Print Assumptions C18_aiger_wf_example.
+
+(** [syms_ok] cannot be dropped: a binary file that names input 0 twice with an empty
+    name is accepted with the name " ", which no symbol line reproduces *)
+Theorem C18_aiger_syms_ok_needed :
+  exists p, is_binary dup_file /\ parse_aiger true dup_file = POk p /\
+            sy_in (ap_syms p) = [Some [32%N]] /\ ~ syms_ok p /\
+            parse_aiger true (print_aag p) <> POk p.
+Proof. exact dup_file_not_reproducible. Qed.
+Print Assumptions C18_aiger_syms_ok_needed.
